@@ -82,3 +82,11 @@ backtrace_history = dict(
     bounded=dict(bound='every history of <= 5 (thorough: 6) actions over 8 action kinds, two fresh loggers per history', form='b'),
     dropped=[], trusted=['g++ / libstdc++ / fmt execute the real frontend and backend'], min_obligations=1, timeout=1500)
 UNITS += [backtrace_history]
+def _dropping(series, extra):
+    return dict(
+        name='LG.dropping_history[%s]' % series, primary='C08', props={'C08', 'C09'}, kind='L', funcs=[], enforce=None,
+        desc='a %s dropping queue through the real pipeline (LoggerImpl::log_statement called as the macros call it, ManualBackendWorker, error notifier), model-free bookkeeping over every history of statements of three sizes and backend polls: returned true <=> delivered (complete, once, in order); reported drops add up; a fitting statement on a drained queue is accepted' % series,
+        native=dict(cpp='dropping_history.cpp', file='include/quill/Logger.h', function='LoggerImpl::log_statement, BoundedSPSCQueue / UnboundedSPSCQueue, BackendWorker::{_poll,_check_failure_counter}', defs_quick=['LEN=7'] + extra, defs_thorough=['LEN=8'] + extra),
+        bounded=dict(bound='every history of <= 7 (thorough: 8) actions over 5 statement sizes and poll; queue capacity 1 KiB (unbounded: up to 2 KiB)', form='b'),
+        dropped=[], trusted=['g++ / libstdc++ / fmt execute the real frontend and backend on ONE thread (no concurrency: the interleavings are units BQ.* / UQ.*)'], min_obligations=1, timeout=1500)
+UNITS += [_dropping('bounded', []), _dropping('unbounded', ['SERIES_UNBOUNDED'])]
